@@ -5,6 +5,7 @@ import GroupbyVerif.Model.RowSel
 import GroupbyVerif.Model.Cumulative
 import GroupbyVerif.Model.Rolling
 import GroupbyVerif.Model.Ema
+import GroupbyVerif.Model.Nanops
 import GroupbyVerif.Generated.Constants
 
 /-!
@@ -138,6 +139,19 @@ def showRat (q : Rat) : String := if q.den == 1 then toString q.num else s!"{q.n
 
 def showEma (vs : List (Option (Option Rat))) : String :=
   ",".intercalate (vs.map fun | none => "K" | some none => "_" | some (some q) => showRat q)
+
+def parseNanOp (s : String) : Option NanOp :=
+  match s with
+  | "sum" => some .sum | "min" => some .min | "max" => some .max | "count" => some .count
+  | "sum_square" => some .sumSquare
+  | _ => none
+
+def generatedROps (k : Kind) : String → Val → Val → Val
+  | "sum" => Generated.ReductionOps.sum k | "min" => Generated.ReductionOps.min k
+  | "max" => Generated.ReductionOps.max k | "count" => Generated.ReductionOps.count k
+  | "sum_square" => Generated.ReductionOps.sum_square k | "first" => Generated.ReductionOps.first k
+  | "first_skipna" => Generated.ReductionOps.first_skipna k | "last" => Generated.ReductionOps.last k
+  | _ => Generated.ReductionOps.last_skipna k
 
 def showInts (vs : List Int) : String := ",".intercalate (vs.map toString)
 
